@@ -16,6 +16,9 @@ type State struct {
 	heaps map[string]*Term
 	alloc *Term
 	pc    *Term
+	// flags: ghost booleans "a call whose callee reads <text> was executed on this path since the
+	// start of the current loop iteration (or of the function)" - read by called("<text>")
+	flags map[string]*Term
 }
 
 func (s *State) clone() *State {
@@ -26,13 +29,19 @@ func (s *State) clone() *State {
 	for k, v := range s.heaps {
 		n.heaps[k] = v
 	}
+	if len(s.flags) > 0 {
+		n.flags = make(map[string]*Term, len(s.flags))
+		for k, v := range s.flags {
+			n.flags[k] = v
+		}
+	}
 	return n
 }
 
 func (s *State) dead() bool { return isFalse(s.pc) }
 
 func (s *State) set(o *State) {
-	s.env, s.heaps, s.alloc, s.pc = o.env, o.heaps, o.alloc, o.pc
+	s.env, s.heaps, s.alloc, s.pc, s.flags = o.env, o.heaps, o.alloc, o.pc, o.flags
 }
 
 func (s *State) kill() { s.pc = tFalse }
@@ -120,6 +129,7 @@ func leafClassDeep(t types.Type) string {
 	}
 	return leafClass(t)
 }
+
 // leafClass groups leaf Go types that may legitimately share memory cells (same width and
 // representation class); each class has its own heap, so that e.g. an int32 cell and a
 // pointer cell never interfere even when both are modelled by the SMT sort Int.
@@ -174,7 +184,6 @@ func (c *VC) ptrHeap(st *State, t types.Type) (string, *Term) {
 	h := c.heapDefault(st, n, arraySort(sortInt, c.sortOf(t)))
 	return n, h
 }
-
 
 // merge a and b into a new state.
 func (c *VC) merge(a, b *State) *State {
@@ -246,6 +255,30 @@ func (c *VC) merge(a, b *State) *State {
 		n.alloc = c.name("alloc", mkIte(cond, a.alloc, b.alloc))
 	}
 	n.pc = c.name("pc", mkOr(cond, b.pc))
+	if len(a.flags) > 0 || len(b.flags) > 0 {
+		n.flags = map[string]*Term{}
+		fk := map[string]bool{}
+		for k := range a.flags {
+			fk[k] = true
+		}
+		for k := range b.flags {
+			fk[k] = true
+		}
+		for _, k := range sortedKeys(fk) {
+			va, vb := a.flags[k], b.flags[k]
+			if va == nil {
+				va = tFalse
+			}
+			if vb == nil {
+				vb = tFalse
+			}
+			if va == vb || termEq(va, vb) {
+				n.flags[k] = va
+			} else {
+				n.flags[k] = c.name("called", mkIte(cond, va, vb))
+			}
+		}
+	}
 	return n
 }
 
@@ -877,6 +910,10 @@ func (c *VC) loopDir(ord int) *LoopDir {
 }
 
 func (c *VC) dirPkgPos(body *ast.BlockStmt) token.Pos {
+	if c.loopEnd == nil {
+		c.loopEnd = map[token.Pos]token.Pos{}
+	}
+	c.loopEnd[body.Lbrace+1] = body.Rbrace
 	return body.Lbrace + 1
 }
 
@@ -1009,6 +1046,7 @@ func (c *VC) loopCut(st *State, tg *target, ld *LoopDir, ord int, ef loopEffects
 	cnd := cond(st)
 	b := st.clone()
 	b.pc = mkAnd(st.pc, cnd)
+	b.flags = nil // called(...) speaks about the current iteration
 	exit := st.clone()
 	exit.pc = mkAnd(st.pc, mkNot(cnd))
 	fr.targets = append(fr.targets, tg)
@@ -1042,6 +1080,23 @@ func (c *VC) loopCut(st *State, tg *target, ld *LoopDir, ord int, ef loopEffects
 		}
 	}
 	body(b)
+	if ld != nil && !b.dead() {
+		// `loop N fallthrough e`: e holds whenever the end of the body is reached by falling through
+		// (not by continue, break or return) - with called("f") a must-call rule for the iteration
+		// the clause is read in the scope at the END of the body: the body's own locals are visible
+		ftPos := dirPos
+		if e, ok := c.loopEnd[dirPos]; ok && e.IsValid() {
+			ftPos = e
+		}
+		for _, ft := range ld.Fallthrough {
+			t, err := c.evalDirective(b, ft, ftPos)
+			if err != nil {
+				c.prog.errors = append(c.prog.errors, fmt.Sprintf("CONTRACT-STALE %s loop %d fallthrough %q: %v", fr.fi.Name, ord, ft, err))
+				continue
+			}
+			c.addObl("loop-fallthrough", fmt.Sprintf("loop %d: %s", ord, ft), loopPos, b.pc, t)
+		}
+	}
 	all := append([]*State{b}, tg.continues...)
 	if ld != nil && ld.Split {
 		// one set of step obligations per path through the body (fall-through and each
@@ -1268,7 +1323,7 @@ func (c *VC) execRange(st *State, s *ast.RangeStmt, label string) {
 	tg := &target{label: label, isLoop: true}
 	pos := c.dirPkgPos(s.Body)
 
-	var n *Term             // iteration count
+	var n *Term                        // iteration count
 	var elem func(*State, *Term) *Term // element at index
 	var elemT types.Type
 	switch u := xt.Underlying().(type) {
